@@ -21,6 +21,122 @@ use verif_harness::{
 };
 
 const KEYS: &[&str] = &["a", "b", "c"];
+/// the "generation" of a legacy payload data/<key> (Leg of Sidecar.tla)
+const LEG: u64 = 1_000_000;
+
+/// Serialization shape of the pre-0.10 MetaStore sidecar document (no generation).
+#[derive(serde::Serialize)]
+struct LegacyMeta {
+    #[serde(rename = "s")]
+    size: u64,
+    #[serde(rename = "e")]
+    e_tag: Option<String>,
+    #[serde(rename = "o")]
+    original_tag: Option<String>,
+    #[serde(rename = "v")]
+    original_version: Option<String>,
+}
+
+/// Serialization shape of the pre-auth EncryptedStore sidecar document: no authentication fields,
+/// no chunk-AAD version, no generation.
+#[derive(serde::Serialize)]
+struct LegacyEncMeta {
+    #[serde(rename = "s")]
+    size: u64,
+    #[serde(rename = "e")]
+    e_tag: Option<String>,
+    #[serde(rename = "o")]
+    original_tag: Option<String>,
+    #[serde(rename = "v")]
+    original_version: Option<String>,
+    #[serde(rename = "n")]
+    aes_nonce: serde_bytes::ByteArray<12>,
+    #[serde(rename = "t")]
+    aes_tags: Vec<serde_bytes::ByteArray<16>>,
+    #[serde(rename = "c")]
+    chunk_size: Option<u64>,
+}
+
+fn sha3_b64(data: &[u8]) -> String {
+    use base64::{Engine, prelude::BASE64_URL_SAFE};
+    use sha3::Digest;
+    let mut h = sha3::Sha3_256::new();
+    h.update(data);
+    let d: [u8; 32] = h.finalize().into();
+    BASE64_URL_SAFE.encode(d)
+}
+
+/// Writes a legacy (pre-0.10) object straight into the backend, as the old versions of the two
+/// wrappers did: the payload at data/<key>, and (unless `orphan`) a commit point without a generation.
+async fn plant(kind: Kind, raw: &InMemory, key: &str, v: u64, orphan: bool) {
+    let plain = payload_of(v);
+    let (stored, meta_doc): (Vec<u8>, Vec<u8>) = match kind {
+        Kind::Meta => (plain.clone(), Vec::new()),
+        Kind::Enc => {
+            use aes_gcm::{AeadInOut, Aes256Gcm, Key, KeyInit, Nonce};
+            let cipher = Aes256Gcm::new(&Key::<Aes256Gcm>::from([9u8; 32]));
+            let base = [7u8; 12];
+            let chunk = 7usize;
+            let mut ct = plain.clone();
+            let mut tags = Vec::new();
+            for (idx, c) in ct.chunks_mut(chunk).enumerate() {
+                let mut nonce = base;
+                let mut ctr = [0u8; 8];
+                ctr.copy_from_slice(&nonce[4..12]);
+                let n = u64::from_le_bytes(ctr).wrapping_add(idx as u64);
+                nonce[4..12].copy_from_slice(&n.to_le_bytes());
+                let tag = cipher.encrypt_inout_detached(&Nonce::from(nonce), &[], c.into()).unwrap();
+                let tag: [u8; 16] = tag.into();
+                tags.push(serde_bytes::ByteArray::from(tag));
+            }
+            let doc = LegacyEncMeta {
+                size: plain.len() as u64,
+                e_tag: Some(sha3_b64(&ct)),
+                original_tag: None,
+                original_version: None,
+                aes_nonce: base.into(),
+                aes_tags: tags,
+                chunk_size: Some(chunk as u64),
+            };
+            let mut buf = Vec::new();
+            cbor2::to_writer(&doc, &mut buf).unwrap();
+            (ct, buf)
+        }
+    };
+    let put = raw.put(&Path::from(format!("data/{key}")), Bytes::from(stored).into()).await.unwrap();
+    if orphan {
+        return;
+    }
+    let doc = match kind {
+        Kind::Meta => {
+            let m = LegacyMeta {
+                size: plain.len() as u64,
+                e_tag: Some(sha3_b64(&plain)),
+                original_tag: put.e_tag,
+                original_version: put.version,
+            };
+            let mut buf = Vec::new();
+            cbor2::to_writer(&m, &mut buf).unwrap();
+            buf
+        }
+        Kind::Enc => meta_doc,
+    };
+    raw.put(&Path::from(format!("meta/{key}")), Bytes::from(doc).into()).await.unwrap();
+}
+
+/// Builds the recorded inner store, planting the legacy objects of the scenario first (unrecorded,
+/// uncounted: they predate the process) and announcing them to the specification.
+async fn new_inner(kind: Kind, plants: &[Value]) -> (Arc<TraceStore>, TraceHandle, Vec<Value>) {
+    let raw = InMemory::new();
+    let mut evs = Vec::new();
+    for p in plants {
+        let (k, v, orphan) = (p["k"].as_str().unwrap(), p["v"].as_u64().unwrap(), p["orphan"].as_bool().unwrap());
+        plant(kind, &raw, k, v, orphan).await;
+        evs.push(json!({"e": "plant", "k": k, "v": v, "orphan": orphan}));
+    }
+    let (ts, handle) = TraceStore::wrap(Arc::new(raw));
+    (ts, handle, evs)
+}
 
 fn payload_of(v: u64) -> Vec<u8> {
     match v {
@@ -158,8 +274,25 @@ fn classify(e: &Event, gens: &mut GenMap) -> Option<Value> {
                 }
             }
         }
-    } else if e.path.starts_with("data/") {
-        o.insert("cls".into(), json!("legacy"));
+    } else if let Some(rel) = e.path.strip_prefix("data/") {
+        // a legacy payload: generation LEG of its key; only ever deleted or copied FROM
+        o.insert("cls".into(), json!(if kind == "put" { "legacy" } else { "gen" }));
+        o.insert("k".into(), json!(rel));
+        if ek == "be" {
+            o.insert("g".into(), json!(LEG));
+        }
+        if kind == "copy" {
+            if let Some(to) = e.path2.as_deref().and_then(|p| p.strip_prefix("gen/")).and_then(split_gen) {
+                o.insert("sk".into(), json!(rel));
+                o.insert("sg".into(), json!(LEG));
+                o.insert("k".into(), json!(to.0));
+                if ek == "be" {
+                    o.insert("g".into(), json!(gens.ord(&to.1)));
+                }
+            } else {
+                o.insert("cls".into(), json!("legacy"));
+            }
+        }
     } else {
         o.insert("cls".into(), json!("other"));
     }
@@ -252,7 +385,29 @@ async fn observe(kind: Kind, inner: Arc<dyn ObjectStore>) -> Value {
     json!({"e": "obs", "vals": Value::Object(vals), "listed": listed, "list_ok": list_ok})
 }
 
-fn workloads() -> Vec<Vec<Value>> {
+fn pl(k: &str, v: u64, orphan: bool) -> Value {
+    json!({"k": k, "v": v, "orphan": orphan})
+}
+
+fn workloads() -> Vec<(Vec<Value>, Vec<Value>)> {
+    let mut out: Vec<(Vec<Value>, Vec<Value>)> = plain_workloads().into_iter().map(|w| (Vec::new(), w)).collect();
+    let put = |k: &str, v: u64| json!({"op": "put", "k": k, "v": v});
+    let mp = |k: &str, v: u64| json!({"op": "multipart", "k": k, "v": v});
+    let copy = |a: &str, b: &str| json!({"op": "copy", "a": a, "b": b});
+    let ren = |a: &str, b: &str| json!({"op": "rename", "a": a, "b": b});
+    let del = |k: &str| json!({"op": "delete", "k": k});
+    let gc = || json!({"op": "gc"});
+    // stores inherited from the pre-0.10 layout: migration by overwrite, copy / rename FROM and ONTO
+    // legacy keys, deletion, orphaned legacy payloads, collections in between
+    out.push((vec![pl("a", 1, false), pl("b", 2, true)], vec![put("a", 2), gc(), put("b", 1), gc(), del("a")]));
+    out.push((vec![pl("a", 1, false), pl("b", 2, false)], vec![copy("a", "c"), ren("b", "a"), gc(), del("c"), gc()]));
+    out.push((vec![pl("a", 1, false)], vec![del("a"), gc(), put("a", 3), gc()]));
+    out.push((vec![pl("a", 1, false), pl("c", 3, true)], vec![mp("a", 2), ren("a", "b"), gc(), put("c", 1)]));
+    out.push((vec![pl("a", 1, false), pl("b", 2, false)], vec![gc(), copy("a", "b"), gc(), del("a"), ren("b", "c"), gc()]));
+    out
+}
+
+fn plain_workloads() -> Vec<Vec<Value>> {
     let put = |k: &str, v: u64| json!({"op": "put", "k": k, "v": v});
     let mp = |k: &str, v: u64| json!({"op": "multipart", "k": k, "v": v});
     let copy = |a: &str, b: &str| json!({"op": "copy", "a": a, "b": b});
@@ -267,11 +422,17 @@ fn workloads() -> Vec<Vec<Value>> {
     ]
 }
 
-async fn run_crash(kind: Kind, w: &[Value], crash_at: Option<u64>) -> (Vec<String>, u64) {
-    let (ts, handle) = TraceStore::wrap(Arc::new(InMemory::new()));
+async fn run_crash(kind: Kind, plants: &[Value], w: &[Value], crash_at: Option<u64>) -> (Vec<String>, u64) {
+    let (ts, handle, planted) = new_inner(kind, plants).await;
     let inner: Arc<dyn ObjectStore> = ts.clone();
     let mut tr = Tr::new(handle.clone());
     tr.emit(json!({"e": "init", "keys": KEYS, "nprocs": 4, "store": kind.name()}));
+    for p in planted {
+        tr.emit(p);
+    }
+    if !plants.is_empty() {
+        tr.emit(observe(kind, inner.clone()).await);
+    }
     if let Some(k) = crash_at {
         handle.crash_at_absolute(k);
     }
@@ -323,7 +484,26 @@ async fn run_crash(kind: Kind, w: &[Value], crash_at: Option<u64>) -> (Vec<Strin
     (tr.lines, m)
 }
 
-fn gc_scenarios() -> Vec<(Vec<Value>, Vec<Value>)> {
+fn gc_scenarios() -> Vec<(Vec<Value>, Vec<Value>, Vec<Value>)> {
+    let put = |k: &str, v: u64| json!({"op": "put", "k": k, "v": v});
+    let copy = |a: &str, b: &str| json!({"op": "copy", "a": a, "b": b});
+    let ren = |a: &str, b: &str| json!({"op": "rename", "a": a, "b": b});
+    let del = |k: &str| json!({"op": "delete", "k": k});
+    let gc = || json!({"op": "gc"});
+    let mut out: Vec<(Vec<Value>, Vec<Value>, Vec<Value>)> =
+        plain_gc_scenarios().into_iter().map(|(a, b)| (Vec::new(), a, b)).collect();
+    // the collector racing the migration of legacy keys
+    let leg = vec![pl("a", 1, false), pl("b", 2, true)];
+    out.push((leg.clone(), vec![], vec![put("a", 2), gc()]));
+    out.push((leg.clone(), vec![], vec![copy("a", "b"), gc()]));
+    out.push((leg.clone(), vec![], vec![ren("a", "c"), gc()]));
+    out.push((leg.clone(), vec![], vec![del("a"), gc()]));
+    out.push((leg.clone(), vec![], vec![put("b", 1), gc()]));
+    out.push((leg, vec![put("c", 3)], vec![copy("a", "c"), put("a", 3), gc()]));
+    out
+}
+
+fn plain_gc_scenarios() -> Vec<(Vec<Value>, Vec<Value>)> {
     let put = |k: &str, v: u64| json!({"op": "put", "k": k, "v": v});
     let copy = |a: &str, b: &str| json!({"op": "copy", "a": a, "b": b});
     let ren = |a: &str, b: &str| json!({"op": "rename", "a": a, "b": b});
@@ -344,11 +524,20 @@ fn gc_scenarios() -> Vec<(Vec<Value>, Vec<Value>)> {
     ]
 }
 
-async fn run_gc_schedule(kind: Kind, prefix: &[Value], procs: &[Value], choices: &[usize]) -> (Vec<String>, Vec<usize>, Vec<usize>) {
-    let (ts, handle) = TraceStore::wrap(Arc::new(InMemory::new()));
+async fn run_gc_schedule(
+    kind: Kind,
+    plants: &[Value],
+    prefix: &[Value],
+    procs: &[Value],
+    choices: &[usize],
+) -> (Vec<String>, Vec<usize>, Vec<usize>) {
+    let (ts, handle, planted) = new_inner(kind, plants).await;
     let inner: Arc<dyn ObjectStore> = ts.clone();
     let mut tr = Tr::new(handle.clone());
     tr.emit(json!({"e": "init", "keys": KEYS, "nprocs": 4, "store": kind.name()}));
+    for p in planted {
+        tr.emit(p);
+    }
     let st = Arc::new(build(kind, inner.clone()));
     for op in prefix {
         let mut call = op.clone();
@@ -443,11 +632,11 @@ async fn main() {
     match args[1].as_str() {
         "crash" => {
             for kind in [Kind::Meta, Kind::Enc] {
-                for (wi, w) in workloads().iter().enumerate() {
-                    let (lines, m) = run_crash(kind, w, None).await;
+                for (wi, (plants, w)) in workloads().iter().enumerate() {
+                    let (lines, m) = run_crash(kind, plants, w, None).await;
                     emit(lines, json!({"store": kind.name(), "w": wi, "mode": "clean"}), &mut out);
                     for k in 0..=m {
-                        let (lines, _) = run_crash(kind, w, Some(k)).await;
+                        let (lines, _) = run_crash(kind, plants, w, Some(k)).await;
                         emit(lines, json!({"store": kind.name(), "w": wi, "mode": "crash", "k": k}), &mut out);
                         points += 1;
                     }
@@ -457,11 +646,11 @@ async fn main() {
         "gcconc" => {
             let cap: u64 = std::env::var("VERIF_CONC_CAP").ok().and_then(|x| x.parse().ok()).unwrap_or(150);
             for kind in [Kind::Meta, Kind::Enc] {
-                for (si, (prefix, procs)) in gc_scenarios().iter().enumerate() {
+                for (si, (plants, prefix, procs)) in gc_scenarios().iter().enumerate() {
                     let mut pre: Vec<usize> = Vec::new();
                     let mut n = 0;
                     loop {
-                        let (lines, counts, taken) = run_gc_schedule(kind, prefix, procs, &pre).await;
+                        let (lines, counts, taken) = run_gc_schedule(kind, plants, prefix, procs, &pre).await;
                         emit(lines, json!({"store": kind.name(), "s": si, "schedule": taken}), &mut out);
                         points += 1;
                         n += 1;
